@@ -8,6 +8,7 @@ Model batch 4: `C18_R1_parsed_equ` — the final symbol table entry by entry, EQ
 import CoCoVerif.Lemmas.RelocFront
 import CoCoVerif.Lemmas.RelocParse
 import CoCoVerif.Props.C18Reloc
+import CoCoVerif.Lemmas.OrgFirst
 
 namespace CoCo.Props
 open CoCo CoCo.Asm
@@ -386,5 +387,355 @@ theorem C18_R1_parsed_code_neg {fs : Files} {la lb : List Str} {pa pb : List Stm
     rw [hmv]; rfl
   · intro bs hbs
     exact (reloc_bytes_movedNeg' hshiftI he hc hfu hfu' hbs).2
+
+/-! ## any origin: moves across `$100` included
+
+`OrgOkAny D n` is `OrgOk D n` without the lower bound `256 ≤ n`.  The layouts are related at int level
+(`AddrShiftAny`: numbers `D` apart inside the 64K space, any rendering); operand fields and bytes exactly as in
+`C18_R1_parsed_code`; the final symbol table entry by entry with `EquRelAny` (a label's values are related at int level:
+`IntAddr`).  `RefFitted s4` — the statement is not one of the directives `fit_operand_width` skips — which the
+statement-level theorems ask of the `Moved` statements, holds of every statement of an accepted program
+(`stages_refFitted`), so it does not appear here. -/
+
+/-! ### `RefFitted` holds of every assembled program -/
+
+set_option maxRecDepth 100000 in
+theorem table_data_fitted : ∀ r ∈ Gen.instructions, (r.mnemonic == "FCB" || r.mnemonic == "FDB") = true →
+    fitSkipped r = false := by decide
+
+theorem resolveOperand_special_id {o o' : Operand} {row : Gen.InstrRow} {t : SymTab} (hk : o.kind = .special)
+    (h : resolveOperand o row t = .ok o') : o' = o := by
+  unfold resolveOperand at h
+  rw [hk] at h
+  cases h; rfl
+
+theorem resolveOperand_pseudo_unresolved {o o' : Operand} {row : Gen.InstrRow} {t : SymTab} (hk : o.kind = .pseudo)
+    (hm : (row.mnemonic == "FCB" || row.mnemonic == "FDB" || row.mnemonic == "RMB" || row.mnemonic == "ORG") = false)
+    (h : resolveOperand o row t = .ok o') : o' = o := by
+  unfold resolveOperand at h
+  rw [hk] at h
+  dsimp only at h
+  rw [hm] at h
+  cases h; rfl
+
+/-- `RMB` and `ORG` take a number: anything else is rejected by `translate` -/
+theorem translate_rmb_org_numeric {o : Operand} {row : Gen.InstrRow} {p : Pkg} (hk : o.kind = .pseudo)
+    (hm : (row.mnemonic == "RMB" || row.mnemonic == "ORG") = true) (h : translateOperand o row = .ok p) :
+    o.value.isNumeric = true := by
+  unfold translateOperand at h
+  rw [hk] at h
+  dsimp only at h
+  unfold translatePseudo at h
+  cases hn : o.value.isNumeric with
+  | true => rfl
+  | false =>
+    exfalso
+    simp only [Bool.or_eq_true, beq_iff_eq] at hm
+    rcases hm with hm | hm
+    · have e1 : (("RMB" : String) == "FCB") = false := by decide
+      have e2 : (("RMB" : String) == "FDB") = false := by decide
+      have e3 : (("RMB" : String) == "RMB") = true := by decide
+      simp only [hm, e1, e2, e3, hn, bind, Except.bind, pure, Except.pure, throw, throwThe, MonadExceptOf.throw, Bool.false_eq_true, if_false, if_true,
+        Bool.not_false, Bool.true_or] at h
+      repeat' split at h
+      all_goals first | (cases h; done) | skip
+    · have e1 : (("ORG" : String) == "FCB") = false := by decide
+      have e2 : (("ORG" : String) == "FDB") = false := by decide
+      have e3 : (("ORG" : String) == "RMB") = false := by decide
+      have e4 : (("ORG" : String) == "ORG") = true := by decide
+      simp only [hm, e1, e2, e3, e4, hn, bind, Except.bind, pure, Except.pure, throw, throwThe, MonadExceptOf.throw, Bool.false_eq_true, if_false, if_true,
+        Bool.not_false, Bool.true_or] at h
+      repeat' split at h
+      all_goals first | (cases h; done) | skip
+
+
+/-- every statement that enters `fixAll` in an accepted run of `assemble` is `RefFitted`: a statement whose operand
+value is a label (`.address`) is an instruction or FCB / FDB — the directives that `fit_operand_width` skips keep their
+symbol operands (`resolve_symbols` looks up the operands of FCB, FDB, RMB, ORG only, and RMB / ORG with a label are
+rejected by `translate`), and so do the special instructions (PSHS, TFR, ...) -/
+theorem stages_refFitted {fs : Files} {lines : List Str} {A : Assembly} (st : Stages fs lines A) {i : Nat} {s4 : Stmt}
+    (h4 : st.ss4[i]? = some s4) : RefFitted s4 := by
+  obtain ⟨u, hu, _⟩ := (fixAll_ok st.hfix).2 i s4 h4
+  obtain ⟨tr⟩ := st.trace hu
+  have e4 : tr.s4 = s4 := by have := tr.h4; rw [h4] at this; cases this; rfl
+  have hrow : s4.row = tr.s0.row := by
+    obtain ⟨_, _, _, _, _, h3⟩ := tr.pcr
+    obtain ⟨_, h4'⟩ := tr.addr
+    rw [← e4]
+    have e1 := congrArg Stmt.row h4'
+    have e2 := congrArg Stmt.row h3
+    exact e1.trans e2
+  have hop : s4.operand = tr.o := by
+    obtain ⟨_, _, _, _, _, h3⟩ := tr.pcr
+    obtain ⟨_, h4'⟩ := tr.addr
+    rw [← e4]
+    have e1 := congrArg Stmt.operand h4'
+    have e2 := congrArg Stmt.operand h3
+    exact e1.trans e2
+  intro ha
+  rw [hop] at ha
+  rw [hrow]
+  obtain ⟨hmem, txt, hcr⟩ := tr.parsed
+  obtain ⟨k1, k2, _, _⟩ := createOperand_kind hcr
+  have hna : tr.s0.operand.value.isAddress = false := st.ss0_notAddr tr.s0 (List.mem_of_getElem? tr.h0)
+  cases hsk : fitSkipped tr.s0.row with
+  | false => rfl
+  | true =>
+    exfalso
+    cases hp : tr.s0.row.isPseudo with
+    | true =>
+      have hk := k1 hp
+      cases hm : (tr.s0.row.mnemonic == "FCB" || tr.s0.row.mnemonic == "FDB" || tr.s0.row.mnemonic == "RMB" ||
+          tr.s0.row.mnemonic == "ORG") with
+      | false =>
+        rw [resolveOperand_pseudo_unresolved hk hm tr.hres, hna] at ha
+        cases ha
+      | true =>
+        cases hd : (tr.s0.row.mnemonic == "FCB" || tr.s0.row.mnemonic == "FDB") with
+        | true =>
+          rw [table_data_fitted _ hmem hd] at hsk
+          cases hsk
+        | false =>
+          have hro : (tr.s0.row.mnemonic == "RMB" || tr.s0.row.mnemonic == "ORG") = true := by
+            simp only [Bool.or_eq_true, Bool.or_eq_false_iff] at hm hd ⊢
+            rcases hm with ((h | h) | h) | h
+            · rw [h] at hd; cases hd.1
+            · rw [h] at hd; cases hd.2
+            · exact .inl h
+            · exact .inr h
+          have hnum := translate_rmb_org_numeric ((resolveOperand_kind_pseudo tr.hres).mpr hk) hro tr.htr
+          cases hv : tr.o.value with
+          | address j m => rw [hv] at hnum; cases hnum
+          | _ => rw [hv] at ha; cases ha
+    | false =>
+      have hsp : tr.s0.row.isSpecial = true := by
+        unfold fitSkipped at hsk
+        rw [hp] at hsk
+        simpa using hsk
+      rw [resolveOperand_special_id (k2 hp hsp) tr.hres, hna] at ha
+      cases ha
+
+/-- the ORG bound at any origin: the moved ORG value stays inside the 64K space -/
+def OrgOkAny (D : Nat) (n : Nat) : Prop := n + D < 65536
+
+theorem OrgOk.any {D n : Nat} (h : OrgOk D n) : OrgOkAny D n := h.2
+
+/-- C18-R1 for parsed programs at ANY origin (every ORG value `n` with `n + D < $10000`): the symbol tables before
+address assignment coincide; every address moves by `D` (as a number inside the 64K space: `AddrShiftAny`); statement
+by statement the operand field (after `fix_addresses; fit_operand_width`) is identical (`Unmoved`) or moved by `D`
+(`Moved`: a label reference in a 16-bit field), and so are the emitted bytes; the final symbol tables are related entry
+by entry by `EquRelAny` (a label's value moves by `D` as a number, an EQU moves like its defining expression). -/
+theorem C18_R1_parsed_code_any {fs : Files} {la lb : List Str} {pa pb : List Stmt} {D : Nat} {A B : Assembly}
+    (hpa : parseLines la = .ok pa) (hpb : parseLines lb = .ok pb) (hrel : PW (OrgRel D (OrgOkAny D)) pa pb)
+    (hinc : ∀ s ∈ pa, s.row.isInclude = false)
+    (hhead : ∃ s0 r0, pa = s0 :: r0 ∧ s0.row.mnemonic = "ORG")
+    (stA : Stages fs la A) (stB : Stages fs lb B) :
+    stB.t = stA.t ∧ PW (AddrShiftAny D) stA.ss4 stB.ss4 ∧ PW (AddrShiftAny D) A.stmts B.stmts ∧
+    (∀ (i : Nat) (s4 t t' : Stmt), stA.ss4[i]? = some s4 → A.stmts[i]? = some t → B.stmts[i]? = some t' →
+      (Unmoved D stA.ss4 s4 → t'.pkg.additional = t.pkg.additional ∧ stmtBytes t' = stmtBytes t) ∧
+      (Moved D stA.ss4 s4 → t'.pkg.additional = shiftV D t.pkg.additional ∧
+        ∀ bs, stmtBytes t = some bs →
+          ∃ pre x, t.pkg.additional.int? = some x ∧ x + D < 65536 ∧ bs = pre ++ [x / 256, x % 256] ∧
+            stmtBytes t' = some (pre ++ [(x + D) / 256, (x + D) % 256]))) ∧
+    (∀ (j : Nat) (k : Str) (v : Value), stA.t[j]? = some (k, v) →
+      ∃ x x', A.symtab[j]? = some (k, x) ∧ B.symtab[j]? = some (k, x') ∧ EquRelAny D stA.ss4 stA.t v x x') := by
+  obtain ⟨ht, h3⟩ := reloc_stages hpa hpb hrel hinc stA stB
+  -- head of ss3 is a preset ORG
+  have hpar : stA.parsed = pa := by have := stA.hparse; rw [hpa] at this; cases this; rfl
+  have hA35 : PW KeepRel stA.parsed stA.ss3 := by
+    have e : stA.ss0 = stA.parsed := expand_id (by rw [hpar]; exact hinc) stA.hexpand
+    rw [← e]
+    exact (stA.keep01.trans stA.keep12 (fun _ _ _ => KeepRel.trans)).trans stA.keep23 (fun _ _ _ => KeepRel.trans)
+  obtain ⟨s0, r0, hp0, hm0⟩ := hhead
+  obtain ⟨x0, y0, e3, hx0⟩ : ∃ x0 y0, stA.ss3 = x0 :: y0 ∧ x0.row.mnemonic = "ORG" := by
+    rw [hpar, hp0] at hA35
+    obtain ⟨x0, y0, e, hk, _⟩ := hA35.cons_left
+    exact ⟨x0, y0, e, by rw [hk.2]; exact hm0⟩
+  have h3' := h3
+  rw [e3] at h3'
+  obtain ⟨x0', y0', e3', hr0, _⟩ := h3'.cons_left
+  obtain ⟨n0, hpre, hpre'⟩ : ∃ n, x0.pkg.address = .numeric n (some 4) .extended false ∧
+      x0'.pkg.address = .numeric (n + D) (some 4) .extended false := by
+    rcases hr0 with ⟨_, _, hm⟩ | ⟨_, _, _, _, _, _, _, n, _, ha, ha'⟩
+    · rw [hx0] at hm; exact absurd hm (by decide)
+    · exact ⟨n, ha, ha'⟩
+  have hbounds : ∀ s ∈ stA.ss3, ∀ o h m n, s.pkg.address = .numeric o h m n → o + D < 65536 := by
+    intro s hs o hh m n ha
+    obtain ⟨j, hj⟩ := List.getElem?_of_mem hs
+    obtain ⟨s', _, hr⟩ := h3.get hj
+    rcases hr with ⟨_, hnone, _⟩ | ⟨_, _, _, _, _, _, _, n1, hP, ha1, _⟩
+    · rw [ha] at hnone; cases hnone
+    · rw [ha] at ha1; cases ha1; exact hP
+  have hshift : PW (AddrShiftAny D) stA.ss4 stB.ss4 := by
+    have hb := stB.haddr
+    rw [e3', assignAddrs_head_preset hpre' 0 (0 + D), ← e3'] at hb
+    refine assignAddrs_reloc_any D _ _ 0 _ _ (h3.mono (fun _ _ => OrgRelT.orgShift))
+      (fun s hs => ?_) hbounds stA.haddr hb
+    obtain ⟨j, hj⟩ := List.getElem?_of_mem hs
+    obtain ⟨s', _, hr⟩ := h3.get hj
+    exact hr.orgWide
+  have hshiftI : PW (AddrShiftI D) stA.ss4 stB.ss4 := hshift.mono (fun _ _ => AddrShiftAny.toI)
+  have fA := fixAll_ok stA.hfix
+  have fB := fixAll_ok stB.hfix
+  have kA := assignAddrs_keep stA.haddr
+  have kB := assignAddrs_keep stB.haddr
+  -- per statement
+  have key : ∀ (i : Nat) (s4 t t' : Stmt), stA.ss4[i]? = some s4 → A.stmts[i]? = some t → B.stmts[i]? = some t' →
+      AddrShiftAny D t t' ∧
+      (Unmoved D stA.ss4 s4 → t'.pkg.additional = t.pkg.additional ∧ stmtBytes t' = stmtBytes t) ∧
+      (Moved D stA.ss4 s4 → t'.pkg.additional = shiftV D t.pkg.additional ∧
+        ∀ bs, stmtBytes t = some bs →
+          ∃ pre x, t.pkg.additional.int? = some x ∧ x + D < 65536 ∧ bs = pre ++ [x / 256, x % 256] ∧
+            stmtBytes t' = some (pre ++ [(x + D) / 256, (x + D) % 256])) := by
+    intro i s4 t t' hs4 ht ht'
+    obtain ⟨s4', hs4', hsh⟩ := hshift.get hs4
+    obtain ⟨u, hu, hfu⟩ := fA.2 i s4 hs4
+    obtain ⟨u', hu', hfu'⟩ := fB.2 i s4' hs4'
+    simp only [Nat.zero_add] at hfu hfu'
+    rw [ht] at hu; cases hu
+    rw [ht'] at hu'; cases hu'
+    obtain ⟨s3, hs3, ⟨v, hv⟩, hkeep⟩ := kA.get' hs4
+    obtain ⟨s3', hs3', ⟨v', hv'⟩, hkeep'⟩ := kB.get' hs4'
+    obtain ⟨w, hw⟩ := fixFit_keeps hfu
+    obtain ⟨w', hw'⟩ := fixFit_keeps hfu'
+    have hT : AddrShiftAny D t t' := by rw [hw, hw']; exact ⟨hsh.1, hsh.2⟩
+    refine ⟨hT, ?_⟩
+    rcases h3.2 i s3 s3' hs3 hs3' with ⟨rfl, _, _⟩ | ⟨hin, hm, hn, hk, hk', hnum, hnum', n, _, ha, ha'⟩
+    · have he : s4' = s4.setAddress s4'.pkg.address := by rw [hv, hv']; rfl
+      constructor
+      · intro hc
+        obtain ⟨e, hb⟩ := reloc_bytes_unmoved' hshiftI he hc hfu hfu'
+        exact ⟨by rw [e]; rfl, hb⟩
+      · intro hc
+        have hfit : RefFitted s4 := stages_refFitted stA hs4
+        have hmv := reloc_fixFit_moved_any' hshift he hc hfit (i := i)
+        rw [hfu, hfu'] at hmv
+        simp only [Outcome.map_ok, Outcome.ok.injEq] at hmv
+        refine ⟨by rw [hmv]; rfl, ?_⟩
+        intro bs hbs
+        exact (reloc_bytes_moved_any' hshift he hc hfit hfu hfu' hbs).2
+    · -- two ORG statements: untouched by assignAddrs and by fixOne
+      have e4 : s4 = s3 := hkeep (by simp [Stmt.preset, ha, Value.isNone])
+      have e4' : s4' = s3' := hkeep' (by simp [Stmt.preset, ha', Value.isNone])
+      subst e4 e4'
+      have hrow : s4.row ∈ Gen.instructions := by
+        have := stA.row_mem ht
+        rw [hw] at this; exact this
+      have hrow' : s4'.row ∈ Gen.instructions := by
+        have := stB.row_mem ht'
+        rw [hw'] at this; exact this
+      rw [fixFit_org _ _ hrow hm hk hnum hn] at hfu
+      rw [fixFit_org _ _ hrow' (by rw [hin]; simpa using hm) hk' hnum' (by rw [hin]; simpa using hn)] at hfu'
+      cases hfu; cases hfu'
+      have eadd : t'.pkg.additional = s4.pkg.additional := by rw [hin]; simp
+      constructor
+      · intro _
+        refine ⟨eadd, ?_⟩
+        unfold stmtBytes
+        rw [eadd, show t'.pkg.opCode = s4.pkg.opCode by rw [hin]; simp,
+          show t'.pkg.postByte = s4.pkg.postByte by rw [hin]; simp]
+      · rintro (⟨_, _, hv, _⟩ | ⟨_, _, _, hn', _⟩)
+        · exfalso
+          rcases hv with ⟨tg, m, hv⟩ | ⟨l, r, op, m, k, hh, mm, nn, hv, _⟩ <;> rw [hv] at hnum <;> cases hnum
+        · rw [hn] at hn'; cases hn'
+  have hfinal : PW (AddrShiftAny D) A.stmts B.stmts := by
+    have lA := fA.1
+    have lB := fB.1
+    refine ⟨by rw [lA, lB, hshift.1], ?_⟩
+    intro i t t' ht ht'
+    obtain ⟨s4, hs4, _⟩ := (fixAll_pw stA.hfix).get' ht
+    exact (key i s4 t t' hs4 ht ht').1
+  refine ⟨ht, hshift, hfinal, fun i s4 t t' a b c => (key i s4 t t' a b c).2, ?_⟩
+  intro j k v hj
+  have hB := stB.heval
+  rw [ht] at hB
+  exact symtab_reloc_entry_any hshiftI (fixAll_sameAddr stA.hfix) (fixAll_sameAddr stB.hfix)
+    hfinal stA.heval hB stA.hfinal stB.hfinal hj
+
+/-- C18-R1 for parsed programs at any origin, the final symbol table entry by entry (the last conjunct of
+`C18_R1_parsed_code_any`): a label's value moves by `D` as a number (`IntAddr`; the rendering — hence the printed form
+`$F0` / `$01F0` — may differ across `$100`), an EQU that is not defined by a label expression stays, an EQU defined by a
+label expression moves like that expression. -/
+theorem C18_R1_parsed_equ_any {fs : Files} {la lb : List Str} {pa pb : List Stmt} {D : Nat} {A B : Assembly}
+    (hpa : parseLines la = .ok pa) (hpb : parseLines lb = .ok pb) (hrel : PW (OrgRel D (OrgOkAny D)) pa pb)
+    (hinc : ∀ s ∈ pa, s.row.isInclude = false)
+    (hhead : ∃ s0 r0, pa = s0 :: r0 ∧ s0.row.mnemonic = "ORG")
+    (stA : Stages fs la A) (stB : Stages fs lb B) :
+    ∀ (j : Nat) (k : Str) (v : Value), stA.t[j]? = some (k, v) →
+      ∃ x x', A.symtab[j]? = some (k, x) ∧ B.symtab[j]? = some (k, x') ∧ EquRelAny D stA.ss4 stA.t v x x' :=
+  (C18_R1_parsed_code_any hpa hpb hrel hinc hhead stA stB).2.2.2.2
+
+/-- C18-R1 for parsed programs at any origin, the third class (`MovedMod`): conclusions as in
+`C18_R1_parsed_code_mod` -/
+theorem C18_R1_parsed_code_mod_any {fs : Files} {la lb : List Str} {pa pb : List Stmt} {D : Nat} {A B : Assembly}
+    (hpa : parseLines la = .ok pa) (hpb : parseLines lb = .ok pb) (hrel : PW (OrgRel D (OrgOkAny D)) pa pb)
+    (hinc : ∀ s ∈ pa, s.row.isInclude = false)
+    (hhead : ∃ s0 r0, pa = s0 :: r0 ∧ s0.row.mnemonic = "ORG")
+    (stA : Stages fs la A) (stB : Stages fs lb B) :
+    ∀ (i : Nat) (s4 t t' : Stmt), stA.ss4[i]? = some s4 → A.stmts[i]? = some t → B.stmts[i]? = some t' →
+      MovedMod D stA.ss4 s4 → t'.pkg.additional = shiftVmod D t.pkg.additional ∧
+        ∀ bs, stmtBytes t = some bs →
+          ∃ pre x, t.pkg.additional.int? = some x ∧ x < 65536 ∧ bs = pre ++ [x / 256, x % 256] ∧
+            stmtBytes t' = some (pre ++ [(x + D) % 65536 / 256, (x + D) % 65536 % 256]) := by
+  intro i s4 t t' hs4 ht ht' hc
+  have hshift := (C18_R1_parsed_code_any hpa hpb hrel hinc hhead stA stB).2.1
+  have hshiftI : PW (AddrShiftI D) stA.ss4 stB.ss4 := hshift.mono (fun _ _ => AddrShiftAny.toI)
+  obtain ⟨s4', hs4', _⟩ := hshift.get hs4
+  obtain ⟨u, hu, hfu⟩ := (fixAll_ok stA.hfix).2 i s4 hs4
+  obtain ⟨u', hu', hfu'⟩ := (fixAll_ok stB.hfix).2 i s4' hs4'
+  simp only [Nat.zero_add] at hfu hfu'
+  rw [ht] at hu; cases hu
+  rw [ht'] at hu'; cases hu'
+  have hnum := hc.not_numeric
+  have he := reloc_ss4_same hpa hpb hrel hinc stA stB hs4 hs4' hnum
+  constructor
+  · have hmv := reloc_fixFit_movedMod' hshiftI he hc (i := i)
+    rw [hfu, hfu'] at hmv
+    simp only [Outcome.map_ok, Outcome.ok.injEq] at hmv
+    rw [hmv]; rfl
+  · intro bs hbs
+    exact (reloc_bytes_movedMod' hshiftI he hc hfu hfu' hbs).2
+
+/-- C18-R1 for parsed programs at any origin, the fourth class (`MovedNeg`): conclusions as in
+`C18_R1_parsed_code_neg` -/
+theorem C18_R1_parsed_code_neg_any {fs : Files} {la lb : List Str} {pa pb : List Stmt} {D : Nat} {A B : Assembly}
+    (hpa : parseLines la = .ok pa) (hpb : parseLines lb = .ok pb) (hrel : PW (OrgRel D (OrgOkAny D)) pa pb)
+    (hinc : ∀ s ∈ pa, s.row.isInclude = false)
+    (hhead : ∃ s0 r0, pa = s0 :: r0 ∧ s0.row.mnemonic = "ORG")
+    (stA : Stages fs la A) (stB : Stages fs lb B) :
+    ∀ (i : Nat) (s4 t t' : Stmt), stA.ss4[i]? = some s4 → A.stmts[i]? = some t → B.stmts[i]? = some t' →
+      MovedNeg stA.ss4 s4 → t'.pkg.additional = shiftVneg D t.pkg.additional ∧
+        ∀ bs, stmtBytes t = some bs →
+          ∃ pre x y, t.pkg.additional.int? = some x ∧ x < 65536 ∧ y < 65536 ∧ (y + D) % 65536 = x ∧
+            bs = pre ++ [x / 256, x % 256] ∧ stmtBytes t' = some (pre ++ [y / 256, y % 256]) := by
+  intro i s4 t t' hs4 ht ht' hc
+  have hshift := (C18_R1_parsed_code_any hpa hpb hrel hinc hhead stA stB).2.1
+  have hshiftI : PW (AddrShiftI D) stA.ss4 stB.ss4 := hshift.mono (fun _ _ => AddrShiftAny.toI)
+  obtain ⟨s4', hs4', _⟩ := hshift.get hs4
+  obtain ⟨u, hu, hfu⟩ := (fixAll_ok stA.hfix).2 i s4 hs4
+  obtain ⟨u', hu', hfu'⟩ := (fixAll_ok stB.hfix).2 i s4' hs4'
+  simp only [Nat.zero_add] at hfu hfu'
+  rw [ht] at hu; cases hu
+  rw [ht'] at hu'; cases hu'
+  have he := reloc_ss4_same hpa hpb hrel hinc stA stB hs4 hs4' hc.not_numeric
+  constructor
+  · have hmv := reloc_fixFit_movedNeg' hshiftI he hc (i := i)
+    rw [hfu, hfu'] at hmv
+    simp only [Outcome.map_ok, Outcome.ok.injEq] at hmv
+    rw [hmv]; rfl
+  · intro bs hbs
+    exact (reloc_bytes_movedNeg' hshiftI he hc hfu hfu' hbs).2
+
+/-- for an accepted program the four classes of `reloc_fixAll_neg` are the four classes of `reloc_fixAll_any`
+(`CoveredAny`): `RefFitted` comes for free -/
+theorem coveredAny_of_stages {fs : Files} {lines : List Str} {A : Assembly} {D : Nat} (st : Stages fs lines A)
+    {i : Nat} {s : Stmt} (hs : st.ss4[i]? = some s)
+    (hc : Unmoved D st.ss4 s ∨ Moved D st.ss4 s ∨ MovedMod D st.ss4 s ∨ MovedNeg st.ss4 s) :
+    CoveredAny D st.ss4 s := by
+  rcases hc with hc | hc | hc | hc
+  · exact .inl hc
+  · exact .inr (.inl ⟨hc, stages_refFitted st hs⟩)
+  · exact .inr (.inr (.inl hc))
+  · exact .inr (.inr (.inr hc))
 
 end CoCo.Props
